@@ -242,7 +242,9 @@ def search_alpha_s_on_walls(chk, r, n):
         kc, kb = [(2.0, 2.0), (0.5, 2.0), (1.0, 0.5), (2.0, 1.0)][i % 4]
         xir = [1.0, 2.0, 0.5][i % 3]
         mc, mb, mt = 1.5, 4.5, 172.5
-        th = cards.theory(PTO=pto, FNS="ZM-VFNS", alphas=0.25, Qref=2.0 if kc < 2 else 4.0, nfref=4, mc=mc, mb=mb, mt=mt, Qmc=mc, Qmb=mb, kcThr=kc, kbThr=kb, XIR=xir, XIF=1.0, Q0=1.0, nf0=3)
+        # the order of the running is the card's PTO; PTODIS only truncates the coefficient functions
+        ptodis = [None, max(pto - 1, 0), pto + 1][(i // 2) % 3]
+        th = cards.theory(PTO=pto, PTODIS=ptodis, FNS="ZM-VFNS", alphas=0.25, Qref=2.0 if kc < 2 else 4.0, nfref=4, mc=mc, mb=mb, mt=mt, Qmc=mc, Qmb=mb, kcThr=kc, kbThr=kb, XIR=xir, XIF=1.0, Q0=1.0, nf0=3)
         walls = [(kc * mc) ** 2, (kb * mb) ** 2, mt**2]
         q2s = []
         for w in walls[:2]:
@@ -281,8 +283,8 @@ def search_alpha_s_on_walls(chk, r, n):
             rows.append(dict(Q2=q2_, muR2=mu2, nf=nf, alpha_s=g, reference=ref, with_one_flavour_less=other))
             if abs(g - ref) > 1e-10 * ref:
                 bad.append(rows[-1])
-        detail = dict(PTO=pto, kcThr=kc, kbThr=kb, XIR=xir, walls=walls[:2], on_wall_exact=exact, points=rows, mismatches=bad[:3])
-        chk.search_case("alpha_s_on_matching_scales", not bad and all(exact), what=f"ZM-VFNS PTO={pto} kcThr={kc} kbThr={kb} xiR={xir}: alpha_s used by apply_pdf is not the nf = 3 + #(walls <= muR^2) coupling: {bad[:1]}", data=detail, sample=detail if i == 0 else None, nontrivial=any(o is not None and abs(o - r_["reference"]) > 1e-7 for r_ in rows for o in [r_["with_one_flavour_less"]]))
+        detail = dict(PTO=pto, PTODIS=ptodis, kcThr=kc, kbThr=kb, XIR=xir, walls=walls[:2], on_wall_exact=exact, points=rows, mismatches=bad[:3])
+        chk.search_case("alpha_s_on_matching_scales", not bad and all(exact), what=f"ZM-VFNS PTO={pto} PTODIS={ptodis} kcThr={kc} kbThr={kb} xiR={xir}: alpha_s used by apply_pdf is not the nf = 3 + #(walls <= muR^2) coupling: {bad[:1]}", data=detail, sample=detail if i == 0 else None, nontrivial=any(o is not None and abs(o - r_["reference"]) > 1e-7 for r_ in rows for o in [r_["with_one_flavour_less"]]))
 
 
 def run(tier):
